@@ -26,4 +26,25 @@ def run(tier, seed):
     log("[extras] AttrMap: %s model states, %d driver events validated" % (r.get("distinct"), res["events"]))
     if not rep.violations and os.path.exists(trace):
         os.remove(trace)
+    dom_viewer(rep, quick, seed)
     return rep.finish()
+
+
+def dom_viewer(rep, quick, seed):
+    """DomViewer.tla: numbering of referents across views and DOMs (model check + driver trace)."""
+    r = tlc("MCDomViewer", _cfg("domviewer_mc", "SPECIFICATION Spec\nINVARIANTS NumberingExact\nPROPERTIES Stable\nCHECK_DEADLOCK FALSE\n"),
+            workers=4, timeout=600)
+    v = tlc_violation(r)
+    if v:
+        rep.violation("domviewer|spec", {"tlc": r["out"][-2000:]}, v)
+    trace = os.path.join(OUT, "extra_domviewer.ndjson")
+    rbxv(["viewer", "--seed", seed, "--episodes", 80 if quick else 3000, "--steps", 14], stdout_path=trace)
+    cfg = _cfg("domviewer_tr", "SPECIFICATION TraceSpec\nINVARIANTS NumberingExact\nCHECK_DEADLOCK FALSE\n")
+    res = validate_trace("DomViewerTrace", cfg, trace, shards=1 if quick else None)
+    for m in res["mismatches"]:
+        rep.violation("domviewer|%s" % m[3], {"line": m[1], "episode": m[2]}, "DomViewer diverged from DomViewer.tla at %s" % (m[3],))
+    for shard, text, tail in res["violations"]:
+        rep.violation("domviewer|" + text[:60], {"tlc": tail}, text)
+    log("[extras] DomViewer: %s model states, %d driver events validated" % (r.get("distinct"), res["events"]))
+    if not rep.violations and os.path.exists(trace):
+        os.remove(trace)
